@@ -355,6 +355,11 @@ class Gen:
     def block_if(self, ind):
         n = self.r.randint(1, 3)
         br, lines = [], []
+        # the switch form: `{ value:` with cases `- 1:` ... `- else:` - the value compared with each case in turn
+        switch = None
+        if self.has("switch") and self.p(0.3):
+            sv, stv = self.expr(1)
+            switch = (sv, stv, self.r.sample(range(0, 5), n))
         for i in range(n):
             last_else = i == n - 1 and n > 1 and self.p(0.6)
             saved = list(self.temps)
@@ -368,6 +373,10 @@ class Gen:
             if last_else:
                 br.append({"c": {"k": "else"}, "b": self.body(stmts)})
                 lines.append("%s- else:" % ind)
+            elif switch:
+                c = {"k": "b", "op": "==", "a": switch[0], "b": {"k": "lit", "v": I(switch[2][i])}}
+                br.append({"c": c, "b": self.body(stmts)})
+                lines.append("%s- %d:" % (ind, switch[2][i]))
             else:
                 c, tc = self.expr(boolean=True)
                 br.append({"c": c, "b": self.body(stmts)})
@@ -375,7 +384,7 @@ class Gen:
             lines += ls
         # (the line of the closing brace ends in a newline like any other line; it only shows when the block's last
         # output was a tag)
-        return [{"k": "if", "br": br}, {"k": "nl"}], ["%s{" % ind] + lines + ["%s}" % ind]
+        return [{"k": "if", "br": br}, {"k": "nl"}], ["%s{%s" % (ind, " %s:" % switch[1] if switch else "")] + lines + ["%s}" % ind]
 
     def cond_choice(self, ind):
         """a choice inside a conditional block: it is generated, the flow goes on after the block and the choice stays
@@ -435,8 +444,9 @@ class Gen:
             return "END"
         if allow_end and k < 0.3 and self.has("done"):
             return "DONE"
+        # (not into a knot with parameters: they would be undefined there)
         done_labels = [n for n, b in self.gather_labels if b is not None and n.split(".")[0] != "h0" and
-                       self.kinds.get(n.split(".")[0], "knot") == "knot"]
+                       self.kinds.get(n.split(".")[0], "knot") == "knot" and n.split(".")[0] not in self.kparams]
         if self.has("label_diverts") and done_labels and self.after_choice and k > 0.88:
             # to a labelled gather that has been written already (in this knot: going back - a choice has been taken since)
             return r.choice(done_labels)
